@@ -41,6 +41,9 @@ def worker_main(args):
 
     mod, subs = load_subs(args.prop)
     sub = subs[args.sub]
+    # the library prints progress bars to stdout: discard them (results travel through the --out file)
+    devnull = open(os.devnull, "w")
+    sys.stdout = devnull
     res = core.run_shard(args.prop, sub, args.tier, args.seed, args.shard, args.n)
     with open(args.out, "w") as f:
         json.dump(res, f, default=core._json_default)
